@@ -239,6 +239,22 @@ CHECKS["C17"] = dict(
     note="Trusted: as C06.",
     technique="TLA+ WKT grammar / parser evaluated by TLC on the lexed output of the real encoder (trace validation)")
 
+CHECKS["C20"] = dict(
+    level="exploration",
+    text="CRSText.tla maps every abstract CRS (projection, linear unit, TOWGS84 terms, parameter-naming style, PARAMETER order) to its "
+         "PROJ.4 key/value list and its OGC WKT section tree, and contains symbolic models of both parsers (projString; the recursive "
+         "section walk of wkt.go with its path tests, discarded errors and post-processing); TLC checks that both readings assign the "
+         "same terms to every field the transformer uses - including the false origin scaled by the declared unit - and, as a vacuity "
+         "self-test, that the model without the LongC fix-up fails. The TLC-generated structures are rendered with seeded values, "
+         "parsed by the real proj.Parse, and CRSTextTrace.tla requires field agreement within 4 ULP, transformer agreement within "
+         "1000 nm over a grid, Equal for double parses, nil transformers exactly for Equal references, the same reference through "
+         "shp.Decoder.SR(), and the registry laws.",
+    design_ref="DESIGN.md section 5, C20",
+    note="Trusted: TLC, the harness's rendering of the generated structures and its nanometre differences (two runs of the real code; no "
+         "external numeric oracle). Definitions without TOWGS84 are compared within one text flavour.",
+    technique="TLA+ clause-mapping specification with symbolic parser models checked by TLC; TLC-generated text structures parsed by the "
+              "real code; recorded agreement validated by TLC (trace validation)")
+
 NOT_YET = "check not built yet in this round of work; will be claimed when its specification, replay and trace validation exist"
 NA = {
     "C09": "oracle is proj4js 2.3.12 and closed-form geodesy (real-valued transcendental functions, a JavaScript program that "
